@@ -1,0 +1,19 @@
+//go:build verif
+
+package chain
+
+// Contracts for property C16 (recovery): what the block filterer must report.
+// Comment only.
+//
+// A transaction that spends an outpoint the wallet watches, or one found
+// earlier in the same batch of blocks (FoundOutPoints), is reported relevant,
+// whatever its outputs pay.
+//@ macro SPENDS(bf, tx) = (exists j Int :: 0 <= j && j < len(tx.TxIn) && (has(bf.WatchedOutPoints, tx.TxIn[j].PreviousOutPoint) || has(bf.FoundOutPoints, tx.TxIn[j].PreviousOutPoint)))
+//@ func (*BlockFilterer).FilterTx(bf, tx) (r)
+//@   property C16
+//@   requires nonnil: bf != nil && tx != nil
+//@   requires inputs: forall j Int :: {tx.TxIn[j]} 0 <= j && j < len(tx.TxIn) ==> tx.TxIn[j] != nil
+//@   ensures spend_is_relevant: old(SPENDS(bf, tx)) ==> r
+//@   invariant 1 progress: rangeindex + 1 <= len(tx.TxIn)
+//@   invariant 1 seen_spend: forall j Int :: {tx.TxIn[j]} 0 <= j && j <= rangeindex ==> ((has(bf.WatchedOutPoints, tx.TxIn[j].PreviousOutPoint) || has(bf.FoundOutPoints, tx.TxIn[j].PreviousOutPoint)) ==> isRelevant)
+//@   invariant 2 keeps: old(SPENDS(bf, tx)) ==> isRelevant
